@@ -64,6 +64,39 @@ type detFrame struct {
 	Pix     [][]uint16
 	TimeOn  time.Duration
 	LastFFC time.Duration
+	// FFCState is the state word the telemetry carries next to the times ("never", "imminent",
+	// "running", "complete"); every FFC rule in the properties is the 10 s time rule alone
+	FFCState string
+}
+
+// paintFFCStates fills in the telemetry's state word. mode 0: "running" on every frame the 10 s
+// rule calls affected, "complete" elsewhere; mode 1: "running" on the (unaffected) frames just
+// before the reported FFC time moves, as a camera reports it while its shutter is still closed.
+func paintFFCStates(frames []detFrame, mode int) int {
+	n := 0
+	for i := range frames {
+		f := &frames[i]
+		if f.Reset {
+			continue
+		}
+		f.FFCState = "complete"
+		switch mode {
+		case 0:
+			if f.affected() {
+				f.FFCState = "running"
+				n++
+			}
+		default:
+			for j := i + 1; j < len(frames) && j <= i+2; j++ {
+				if !frames[j].Reset && frames[j].LastFFC != f.LastFFC && !f.affected() {
+					f.FFCState = "running"
+					n++
+					break
+				}
+			}
+		}
+	}
+	return n
 }
 
 func (f *detFrame) affected() bool { return !f.Reset && f.TimeOn-f.LastFFC < ffcPeriod }
@@ -72,7 +105,7 @@ func (f *detFrame) toFrame(out *cptvframe.Frame, id int) {
 	for y := range f.Pix {
 		copy(out.Pix[y], f.Pix[y])
 	}
-	out.Status = cptvframe.Telemetry{TimeOn: f.TimeOn, LastFFCTime: f.LastFFC, FrameCount: id}
+	out.Status = cptvframe.Telemetry{TimeOn: f.TimeOn, LastFFCTime: f.LastFFC, FrameCount: id, FFCState: f.FFCState}
 }
 
 func clonePix(p [][]uint16) [][]uint16 {
